@@ -101,3 +101,18 @@ def handle : List String → String
   | _ => "bad-op"
 
 end DaliVerif.RxDrv
+
+namespace DaliVerif.RxDrv
+/-- like `Proto.loop`, but flushing after every answer (the harness talks to this driver in lock-step) -/
+partial def loopFlush (handle : List String → String) : IO Unit := do
+  let stdin ← IO.getStdin
+  let stdout ← IO.getStdout
+  let rec go : IO Unit := do
+    let line ← stdin.getLine
+    if line.isEmpty then return ()
+    let toks := (line.trimAsciiEnd.copy.splitOn " ").filter (· ≠ "")
+    stdout.putStrLn (handle toks)
+    stdout.flush
+    go
+  go
+end DaliVerif.RxDrv
